@@ -1,4 +1,4 @@
 // C01/C02 harness, second build: the same program against the solver copy in libavoid/vpsc.cpp (namespace Avoid).
-// (harness source hash: touch this file when c01_vpsc.cpp changes -- rev 4: op W, thrown index)
+// (harness source hash: touch this file when c01_vpsc.cpp changes -- rev 5: ops R, P (object reuse))
 #define USE_AVOID_NS 1
 #include "c01_vpsc.cpp"
